@@ -525,10 +525,11 @@ class World:
         self.it_spec = ""
         SEAMS.tracked = []
         SEAMS.owner_tag = "call"
+        # descriptors a previous (violating) world may have left behind are not this world's
         self.baseline = self._fds()
-        if self.baseline[0] or os.listdir(SEAMS.common._TEMP_DIR):
-            raise MachineryError(f"world does not start clean: fds={self.baseline}, "
-                                 f"temp={os.listdir(SEAMS.common._TEMP_DIR)}")
+        for n in os.listdir(SEAMS.common._TEMP_DIR):
+            with contextlib.suppress(OSError):
+                os.remove(os.path.join(SEAMS.common._TEMP_DIR, n))
         self.log: list[dict] = []
         if init["kind"] != "none":
             ev = self.execute(new_action("open", kind=init["kind"], anim=init["anim"],
@@ -557,6 +558,7 @@ class World:
         from term_image.image import Size
 
         lib_fds, caller_fds = self._fds()
+        lib_fds = max(0, lib_fds - self.baseline[0])
         live = [(r, p, tag) for r, p, tag in SEAMS.tracked if (f := r()) is not None and not f.closed]
         SEAMS.tracked = live
         iter_h = sum(1 for _, _, tag in live if tag == "iter")
